@@ -480,6 +480,10 @@ theorem xfer_sound (k : Bool) (op : Op) (as : List (String × String)) (a a' : A
   | data =>
     simp only [xfer, Option.some.injEq] at hx; subst hx
     exact hr
+  | book b =>
+    simp only [xfer, Option.some.injEq] at hx; subst hx
+    have hb := book_same st b
+    exact hr.mild (.same hb.2.2.2.1 hb.2.2.2.2.1 hb.2.2.2.2.2.1 hb.2.2.2.2.2.2.2.2.1 hb.2.2.2.2.2.2.2.2.2 hb.2.2.1)
 
 /-- only the attribute loops and `needCategory` leave a handler early -/
 theorem execOp_continues (op : Op) (as : List (String × String)) (st : St) (h : mayReturn op = false) :
